@@ -125,7 +125,39 @@ func rawOne(c *mc.Ctx, set []string, target string, report bool) bool {
 	return true
 }
 
+// rawAbsolute: absolute-form targets on a raw-path engine. The path of "http://h?x=1" is empty, i.e. "/".
+func rawAbsolute(c *mc.Ctx) {
+	type tc struct {
+		target string
+		want   int // index into routes, -1 none
+	}
+	routes := []string{"/", "/a/b", "/a/:x"}
+	cases := []tc{{"http://h", 0}, {"http://h/", 0}, {"http://h?x=1", 0}, {"http://h#f", 0}, {"http://h?x=/a/b", 0}, {"http://h/a/b", 1}, {"http://h/a/b?x=1", 1}, {"http://h/a/%41?x=1", 2}, {"http://h/zz", -1}}
+	for _, t := range cases {
+		opt := config.NewOptions(nil)
+		opt.DisablePrintRoute = true
+		opt.UseRawPath = true
+		opt.RedirectTrailingSlash = false
+		e := route.NewEngine(opt)
+		ran := -1
+		for i, r := range routes {
+			i := i
+			e.GET(r, func(_ context.Context, ctx *app.RequestContext) { ran = i })
+		}
+		ctx := e.NewContext()
+		ctx.Request.Header.SetMethod("GET")
+		ctx.Request.SetRequestURI(t.target)
+		ctx.Request.Header.SetHost("h")
+		pv := serve(context.Background(), e, ctx)
+		c.Add("executions", 1)
+		if pv != nil || ran != t.want {
+			c.Violate("raw-path|absolute-form", fmt.Sprintf("UseRawPath: routes %q, GET %s: route index %d ran (panic %v, status %d), expected %d", routes, t.target, ran, pv, ctx.Response.StatusCode(), t.want), RawCase{routes, t.target})
+		}
+	}
+}
+
 func runRaw(c *mc.Ctx) {
+	rawAbsolute(c)
 	ts := rawTargets()
 	var sets [][]string
 	n := len(rawPatterns)
